@@ -554,7 +554,12 @@ class ExtModel:
             src = a.args[0] if isinstance(a, ExtObj) and a.args else a
             if not (interp.truth(st, src) is True):
                 outs.append(self._raise(interp, st.copy(), ValueError, node, "max()/min() of a possibly empty sequence"))
-        outs.append(("val", st, Unknown("int", label=f"{unparse(node)[:40]}")))
+        res = Unknown("int", label=f"{unparse(node)[:40]}")
+        if len(args) == 1 and isinstance(args[0], ExtObj) and args[0].cls == "dict_keys" and args[0].args and unparse(node.func) == "max":
+            d = args[0].args[0]
+            res = Unknown("int", label=f"max(keys:{d.key()!r})")
+            res.maxof = d.key()
+        outs.append(("val", st, res))
         return outs
 
     b_max = _minmax
@@ -893,6 +898,10 @@ class ExtModel:
             ty = "float"
         res = Unknown(ty if ty != "?" else None, label=f"binop:{op}:{a.key()!r}:{b.key()!r}")
         if op == "Add":
+            for x, y in ((a, b), (b, a)):
+                if getattr(x, "maxof", None) is not None and isinstance(y, Const) and isinstance(y.value, int) and y.value >= 1:
+                    # max(d.keys()) + k with k >= 1 is greater than every key of d
+                    res.gt_all_keys_of = x.maxof
             ms = {}
             for x in (a, b):
                 src = getattr(x, "minsep", None)
